@@ -27,7 +27,8 @@ LEVEL_TEXT = (
     "arithmetic - source - Ada(q) - fees is of this shape (C01_template_value, sumUtxo_spec); (6) the independent "
     "semantics the judge evaluates and the pipeline meet on the lovelace fragment: [[e]] is den(e) lovelace and the "
     "reduced constant denotes den(e) lovelace (eval_lovelace, C01_spec_meets_pipeline); (7) from the source to the "
-    "value: an amount written with asset constructors over integer expressions, the name fees, input names, + and - "
+    "value: an amount written with asset constructors over integer expressions, the name fees, input names, + and -, "
+    "and names of locals standing for such amounts (read one symbol deeper, Ctx.lvl: the analyzer's snapshot depth) "
     "(source - Ada(quantity) - fees) lowers through lowerE at every fuel from a bound on, and with the arguments, the "
     "assigned inputs and the fee applied reduces to a constant denoting, class by class, integer arithmetic on the "
     "constructors' amounts, the fee and the totals of the assigned UTxOs (C01_source_to_value, input_lowers, "
